@@ -179,28 +179,47 @@ def print_assumptions(pid, cfg, names):
     return res
 
 
-def grep_gate():
-    """No Axiom/Parameter/Admitted/admit etc. anywhere in the development."""
+def dep_closure(start):
+    """Transitive closure of `From verif Require Import/Export …` starting from a .v file (relative to coq/)."""
+    seen, todo = set(), [start]
+    while todo:
+        f = todo.pop()
+        if f in seen:
+            continue
+        seen.add(f)
+        try:
+            txt = strip_comments(open(os.path.join(COQ, f), errors="replace").read())
+        except OSError:
+            continue
+        for m in re.finditer(r'From\s+verif\s+Require\s+(?:Import|Export)\s+([\w.\s]+?)\.(?=\s|$)', txt):
+            for mod in m.group(1).split():
+                todo.append(mod.replace(".", "/") + ".v")
+        for m in re.finditer(r'(?<!verif )Require\s+(?:Import|Export)\s+((?:verif\.[\w.]+\s*)+?)\.(?=\s|$)', txt):
+            for mod in m.group(1).split():
+                todo.append(mod[len("verif."):].replace(".", "/") + ".v")
+    return sorted(seen)
+
+
+def grep_gate(cfg):
+    """No Axiom/Parameter/Admitted/admit etc. in any file the property's theorems depend on."""
     bad = []
-    pat = re.compile(r'\b(Admitted|admit|Axiom|Axioms|Parameter|Parameters|Conjecture|Hypothesis|Variable|Variables|Hypotheses)\b|Unset\s+Guard|bypass_check|Admit Obligations|-type-in-type|-impredicative-set')
-    for dp, dn, fn in os.walk(COQ):
-        for f in fn:
-            if not f.endswith(".v"):
-                continue
-            p = os.path.join(dp, f)
-            txt = open(p, errors="replace").read()
-            txt = strip_comments(txt)
-            depth = 0
-            for ln, l in enumerate(txt.split("\n"), 1):
-                if re.match(r'\s*Section\b', l):
-                    depth += 1
-                if re.match(r'\s*End\b', l) and depth > 0:
-                    depth -= 1
-                for m in pat.finditer(l):
-                    w = m.group(0)
-                    if w in ("Variable", "Variables", "Hypothesis", "Hypotheses") and depth > 0:
-                        continue  # section-local, discharged at End
-                    bad.append("%s:%d:%s" % (os.path.relpath(p, ROOT), ln, w))
+    pat = re.compile(r'\b(Admitted|admit|Axiom|Axioms|Parameter|Parameters|Conjecture|Hypothesis|Variable|Variables|Hypotheses)\b|Unset\s+Guard|bypass_check|Admit Obligations|-type-in-type|-impredicative-set|native_compute')
+    for rel in dep_closure(cfg["props_file"]):
+        p = os.path.join(COQ, rel)
+        if not os.path.exists(p):
+            continue
+        txt = strip_comments(open(p, errors="replace").read())
+        depth = 0
+        for ln, l in enumerate(txt.split("\n"), 1):
+            if re.match(r'\s*Section\b', l):
+                depth += 1
+            if re.match(r'\s*End\b', l) and depth > 0:
+                depth -= 1
+            for m in pat.finditer(l):
+                w = m.group(0)
+                if w in ("Variable", "Variables", "Hypothesis", "Hypotheses") and depth > 0:
+                    continue  # section-local, discharged at End
+                bad.append("%s:%d:%s" % (os.path.relpath(p, ROOT), ln, w))
     return bad
 
 
@@ -371,7 +390,7 @@ def main(argv=None):
     notes = []
 
     # 1. proofs
-    gate = grep_gate()
+    gate = grep_gate(cfg)
     b = gen_and_build(pid, cfg)
     names = theorems_of(cfg)
     obligations = len(names)
